@@ -12,7 +12,7 @@ from . import c16
 
 ID = "C11"
 MODULE = "LasioProofs.Props.C11"
-EXTRA_MODULES = ["LasioProofs.Props.C11File"]
+EXTRA_MODULES = ["LasioProofs.Props.C11File", "LasioProofs.Props.C11Data"]
 RULE = ("inputs x writer option sets x cycles: L0 = read(x); x1 = write(L0); L1 = read(x1); x2 = write(L1); L2 = read(x2); ... up to "
         "k = 4 re-reads.  Inputs: every file of tests/examples (unreadable / unwritable ones counted and skipped), generated documents "
         "(harness/lasdoc.gen_doc: section permutations, custom sections, fillers, DLM variants; c16.gen_text: right / wrong STOP, unit "
@@ -561,10 +561,16 @@ LEVEL_TEXT = ("Machine-checked Lean 4 theorems about the writer side of the cycl
               "mnemonic, unit, value text, description, ~Other text), at any header widths; C11_file_iterate — so does the k-th, for every k; "
               "C11_file_invariant — the hypotheses hold again for the re-read object; each extra hypothesis has a counter-example theorem "
               "(duplicate WRAP, hidden value, blank last ~Other line, re-spelt number, changed mnemonic_case, numeric unit, blank mnemonic). "
-              "NOT proved: the data section and the STRT/STOP/STEP / unit refresh inside the composed cycle, numbers whose str() differs from "
+              "WHOLE DATA SECTION (Props/C11Data.lean): the tokens of the second output are the tokens of the first (C11_data_tokens_fixed), the "
+              "text is byte-identical when the index column has no NaN (C11_data_text_fixed), the re-read matrix is a fixed point "
+              "(C11_data_reread_fixed, C11_data_iterate for every k), lifted to Dt.readData for unwrapped and WRAP=YES sections "
+              "(C11_data_readData_*); hypotheses StrtodClose (float() of a printed token lies within half a unit of its last digit), "
+              "NoNullClash, IndexOK, each with a counter-example replayed on the real code (a NaN in the INDEX column drifts when the index "
+              "format does not print NULL exactly). "
+              "NOT proved: the STRT/STOP/STEP / unit refresh inside the composed cycle, numbers whose str() differs from "
               "their spelling (repr round trip is the hypothesis SpeltConf), non-conformant lines: covered by the oracle (real read / write "
               "cycles on the corpus, generated documents and their mutations) and by the correspondence of every write of every cycle with "
               "the compiled writer model.")
 LEVEL_NOTE = ("proved: fixed-point properties of each writer-side ingredient, of a single conformant header line and of the whole written header "
-              "(all sections, every number of cycles); oracle + correspondence only: the data section and the refresh of STRT/STOP/STEP and "
-              "units within the composed cycle, non-conformant lines (the known findings).")
+              "(all sections, every number of cycles) and of the whole written data section; oracle + correspondence only: the refresh of "
+              "STRT/STOP/STEP and units within the composed cycle, text columns, non-conformant lines (the known findings).")
